@@ -1050,8 +1050,26 @@ def run(ck) -> None:
     for entry in load_corpus():
         groups.append(explore_graph(ck, entry["spec"], entry["cuts"]))
         ck.hist("inputs", "corpus")
-    # 2. generated graphs
+    # 2. generated graphs, 3. model vs implementation inside Coq — in batches (bounded memory)
     n_graphs = 120 if not ck.thorough else 2500
+    mism: list[dict] = []
+    failures: list[tuple[dict, dict]] = []
+    validated = 0
+
+    def flush(batch: list[dict], tag: str) -> None:
+        nonlocal validated
+        if not batch:
+            return
+        validated += sum(len(g["cuts"]) + 1 for g in batch)
+        try:
+            mism.extend(run_groups(ck, batch, tag))
+        except RuntimeError as e:
+            ck.broken("correspondence:case-file", str(e))
+        for g in batch:
+            failures.extend((g["spec"], f) for f in g["oracle_failures"])
+
+    flush(groups, "corpus")
+    groups = []
     for i in range(n_graphs):
         mode = "numeric" if i % 2 == 0 else "structural"
         size = ck.rng.choice([0, 1, 1, 2])
@@ -1067,13 +1085,12 @@ def run(ck) -> None:
             c, o = groups[-1]["cuts"][0]
             ck.sample({"graph": spec["root"], "cut": c, "observed": {k: v for k, v in o.items() if k != "msg"},
                        "captures": groups[-1]["an"]})
-    ck.coverage["traces_validated_against_impl"] = sum(len(g["cuts"]) + 1 for g in groups)
-    # 3. model vs implementation inside Coq
-    mism = []
-    try:
-        mism = run_groups(ck, groups, "cases")
-    except RuntimeError as e:
-        ck.broken("correspondence:case-file", str(e))
+        if len(groups) >= 240:
+            flush(groups, f"cases{i}")
+            groups = []
+    flush(groups, "cases_last")
+    groups = []
+    ck.coverage["traces_validated_against_impl"] = validated
     for m in mism[:5]:
         ck.broken(f"correspondence:{m['what']}",
                   json.dumps({k: v for k, v in m.items()}, default=str)[:3500])
@@ -1086,13 +1103,12 @@ def run(ck) -> None:
             else:
                 ck.broken(f"known-finding-stale:{k['key']}", "the recorded witness no longer fails")
     reported = set()
-    for g in groups:
-        for f in g["oracle_failures"]:
-            sig = (f["what"], tuple(x.split(":")[0][:60] for x in f["failures"]))
-            if sig in reported:
-                continue
-            reported.add(sig)
-            report_oracle_failure(ck, g["spec"], f)
+    for fspec, f in failures:
+        sig = (f["what"], tuple(x.split(":")[0][:60] for x in f["failures"]))
+        if sig in reported:
+            continue
+        reported.add(sig)
+        report_oracle_failure(ck, fspec, f)
     # 5. broken but no concrete input yet: oracle on the diverging cases first, then fresh search
     if ck.broken_items and not ck.violations:
         for m in mism[:20]:
